@@ -292,7 +292,13 @@ def check(model, rep, tier):
               line=ts.node.lineno,
               witness={'Store': 'x += 1 reads x', 'Del': 'del x binds x',
                        'Load': 'y = x'}[k])
-  rep.check(bool(tail) and isinstance(tail[0], ast.Raise), 'CTX-TABLE',
+  raises_ = [x for x in core.walk_no_nested(ts.node) if isinstance(x, ast.Raise)]
+  rf = _fm2.FALSE
+  for x in raises_:
+    rf = rf | _fm2.condition_formula(ts.node, x, ctx_atom)
+  none_ = ~_fm2.atom('CTX_Store') & ~_fm2.atom('CTX_Load') & ~_fm2.atom('CTX_Del')
+  rep.check(bool(raises_) and _fm2.implies(none_ & reach, rf)[0] and
+            _fm2.implies(rf, none_)[0], 'CTX-TABLE',
             '%s:unknown-context-raises' % ts.site,
             'an unknown expression context must raise', line=ts.node.lineno)
   vaug = cls.methods.get('visit_AugAssign')
